@@ -111,19 +111,23 @@ PlaneLineOK(r) == \E c \in {[n |-> V(r.t, r.n), pos |-> V(r.t, r.pos), dir |-> V
 
 PlaneMatOK(r) == \E c \in {[n |-> V(r.t, r.n), M |-> Mat(r.t, r.m, 4, 4), p |-> <<V(r.t, r.p1), V(r.t, r.p2), V(r.t, r.p3)>>, n2 |-> V(r.t, r.n2), q |-> V(r.t, r.q)]} :
     LET t == r.t  dist2 == S(t, r.dist2)  dq == S(t, r.dq)
-        img(x) == [j \in 1..3 |-> Value(VecMatH(x, c.M)[j])]                      \* exact image of a point
+        \* exact homogeneous image of a point: <<X, Y, Z, W>>, the point being <<X, Y, Z>> / W
+        hom(x) == [j \in 1..4 |-> Value(VecMatH(x, c.M)[j])]
         scM == D!DAdd(One, MaxAbs(c.M))
         sc == D!DMul(Sc(<<c.p[1], c.p[2], c.p[3], c.q>>), scM)
         tol == D!DScale(D!DMul(E(t), sc), 8)
         detM == Det(Lin(c.M, 3))
-        sd(x) == D!DSub(DotV(c.n2, img(x)), dist2)                                 \* signed distance of the image to the new plane
+        affine == \A i \in 1..3 : D!DIsZero(c.M[i][4])
+        \* W times the signed distance of the image to the new plane
+        sdw(h) == D!DSub(DotV(c.n2, <<h[1], h[2], h[3]>>), D!DMul(dist2, h[4]))
     IN  /\ Unit(t, c.n2)
         \* the transformed plane contains the images of the points that define the plane
-        /\ \A k \in 1..3 : D!DWithin(sd(c.p[k]), D!DZero, tol)
-        \* an orientation-preserving matrix keeps points on their side
-        /\ (D!DSign(detM) > 0 /\ D!DLt(tol, D!DAbs(dq))) =>
-               IF D!DSign(dq) > 0 THEN D!DLt(D!DNeg(tol), sd(c.q)) ELSE D!DLt(sd(c.q), tol)
-        /\ D!DWithin(S(t, r.dqm), sd(c.q), tol)
+        /\ \A k \in 1..3 : \E h \in {hom(c.p[k])} : D!DSign(h[4]) > 0 => D!DLe(D!DAbs(sdw(h)), D!DMul(tol, h[4]))
+        /\ \E h \in {hom(c.q)} : D!DSign(h[4]) > 0 =>
+              \* an orientation-preserving affine matrix keeps points on their side
+              /\ (affine /\ D!DSign(detM) > 0 /\ D!DLt(tol, D!DAbs(dq))) =>
+                     IF D!DSign(dq) > 0 THEN D!DLt(D!DNeg(D!DMul(tol, h[4])), sdw(h)) ELSE D!DLt(sdw(h), D!DMul(tol, h[4]))
+              /\ D!DLe(D!DAbs(D!DSub(D!DMul(S(t, r.dqm), h[4]), sdw(h))), D!DMul(tol, h[4]))
 
 SphereOK(r) == \E c \in {[ctr |-> V(r.t, r.c), pos |-> V(r.t, r.pos), dir |-> V(r.t, r.dir)]} :
     LET t == r.t  rad == S(t, r.r)  tt == S(t, r.tt)
